@@ -590,6 +590,7 @@ def match_known(prop, clause, case, detail):
         if m.get("clause") not in (None, clause):
             continue
         if h in m.get("case_sha1", []) or ("input" in m and m["input"] == case.get("input")) \
+                or ("inputs" in m and case.get("input") in m["inputs"]) \
                 or ("gen" in m and m["gen"] == case.get("gen")):
             return kf
     return None
